@@ -424,7 +424,11 @@ func (P) Exec(c *harness.Case) *harness.Outcome {
 				case 5:
 					_ = outlier.GetRules()
 				case 6:
-					for _, n := range stat.ResourceNodeList() {
+					// (the list comes out of a Go map in the runtime's random order: sorted, so that one seed is one
+					// schedule - the determinism self-test found run 17 of seed 7 parting ways here)
+					nodes := stat.ResourceNodeList()
+					sort.Slice(nodes, func(i, j int) bool { return nodes[i].ResourceName() < nodes[j].ResourceName() })
+					for _, n := range nodes {
 						_ = n.GetQPS(base.MetricEventPass)
 						_ = n.CurrentConcurrency()
 					}
